@@ -738,6 +738,37 @@ fn run_choice_case(d: &mut Driver, r: &mut Report, c: &ChoiceCase, seed: u64, i:
     }
 }
 
+/// Collections of zero-sized elements (unit genes, markers): the size is still exactly the requested one and every
+/// element is still one draw of the element generator (model-free; a size computed from `size_of::<T>()` breaks here).
+fn zero_sized_elements(r: &mut Report, seed: u64) {
+    #[derive(Clone, Copy, Debug, PartialEq)]
+    struct Unit;
+    struct UnitGen;
+    impl Distribution<Unit> for UnitGen { fn sample<R: Rng + ?Sized>(&self, rng: &mut R) -> Unit { let _ = rng.next_u64(); Unit } }
+    impl Distribution<()> for UnitGen { fn sample<R: Rng + ?Sized>(&self, rng: &mut R) { let _ = rng.next_u64(); } }
+    for n in [0usize, 1, 2, 7, 64, 1000] {
+        let mut rng = SplitMix::derive(seed ^ 0x25E, n as u64);
+        let mut shadow = rng.clone();
+        let res = std::panic::catch_unwind(std::panic::AssertUnwindSafe(|| {
+            let a: Vec<Unit> = ec_core::distributions::collection::Generator::new(UnitGen, n).sample(&mut rng);
+            let b: Vec<()> = UnitGen.to_collection_generator(n).sample(&mut rng);
+            let c: Vec<Vec<()>> = UnitGen.to_collection_generator(n).into_collection_generator(3).sample(&mut rng);
+            (a.len(), b.len(), c.iter().map(Vec::len).collect::<Vec<_>>())
+        }));
+        for _ in 0..(5 * n) { shadow.next_u64(); }
+        r.case(&format!("zero-sized elements {n}"), n > 0);
+        r.hit("collection of zero-sized elements");
+        match res {
+            Ok((a, b, c)) => {
+                if a != n || b != n || c != vec![n; 3] || rng.next_u64() != shadow.next_u64() {
+                    r.violate(json!({"case": format!("collection generator of {n} zero-sized elements"), "real": format!("sizes {a}, {b}, {c:?}"), "what": "a collection of zero-sized elements does not have exactly the requested size, or its elements are not one draw of the element generator each"}));
+                }
+            }
+            Err(_) => r.violate(json!({"case": format!("collection generator of {n} zero-sized elements"), "real": "panic", "what": "generating a collection of zero-sized elements panicked"})),
+        }
+    }
+}
+
 // ---------------------------------------------------------------------------------------------
 // uniformity oracle (model-free, on the real code alone)
 // ---------------------------------------------------------------------------------------------
@@ -890,6 +921,7 @@ pub fn run(cfg: &Cfg) -> Report {
     rep.merge(pre);
     uniformity(&mut rep, seed, thorough);
     uniformity_large(&mut rep, seed, thorough);
+    zero_sized_elements(&mut rep, seed);
     rep.exhaustive = true;
     rep.notes.push(format!("exhaustive scope: {} flavours x source lengths 0..={} x {} seeds (all agree unless listed); random: {} choice cases, {} collection cases", FLAVOURS.len(), MAX_ARR, reps, n_rand_choice, n_coll));
     rep
